@@ -5,8 +5,10 @@
 (* reflection over struct fields; its child order comes from NodeSchema.     *)
 (* Events (ndjson):                                                          *)
 (*   {"ev":"tree","tree":{...},"astorder":[ids]}  start of a trace           *)
-(*   {"ev":"visit","n":id,"keep":bool}                                       *)
-(*   {"ev":"nil"}                                                            *)
+(*   {"ev":"visit","n":id,"keep":bool,"vis":v}  v = identity of the visitor    *)
+(*   {"ev":"nil","vis":v}                  that received the call: the      *)
+(*        harness's visitor returns, for the children of a node at depth d,  *)
+(*        a new visitor with identity d+1 (-1: not recorded)                 *)
 (*   {"ev":"end"}                         the traversal returned             *)
 (***************************************************************************)
 EXTENDS Tree, Json, Integers, Sequences, FiniteSets
@@ -36,7 +38,9 @@ TInit == /\ l = 1 /\ T = [root |-> 0, nodes |-> <<>>, astorder |-> <<>>]
 Consume == l <= Len(Trace) /\ l' = l + 1
 
 TTree  == Consume /\ Ev.ev = "tree" /\ (l = 1 \/ W!Done) /\ LoadTree(Ev.tree)
-TVisit == Consume /\ Ev.ev = "visit" /\ W!Visit(Ev.n, Ev.keep) /\ UNCHANGED <<T, aborted>>
+\* the children of a node are visited with the visitor its Visit returned, and so is the closing call
+HandedDown(v) == v = -1 \/ v = Len(stack)
+TVisit == Consume /\ Ev.ev = "visit" /\ W!Visit(Ev.n, Ev.keep) /\ HandedDown(Ev.vis) /\ UNCHANGED <<T, aborted>>
 
 \* C14: a pre callback of Apply; the cursor must locate the node inside its parent
 CursorLocates(parent, name, index, n) ==
@@ -53,7 +57,7 @@ TCVisit == /\ Consume /\ Ev.ev = "cvisit" /\ W!Visit(Ev.n, Ev.keep)
 TAbort == /\ Consume /\ Ev.ev = "abort" /\ started /\ stack # <<>> /\ W!Top.rest = <<>>
           /\ stack' = <<>> /\ aborted' = TRUE
           /\ UNCHANGED <<kidsOf, root, started, count, pruned, nils, order, T>>
-TNil   == Consume /\ Ev.ev = "nil" /\ W!VisitNil /\ UNCHANGED <<T, aborted>>
+TNil   == Consume /\ Ev.ev = "nil" /\ W!VisitNil /\ HandedDown(Ev.vis) /\ UNCHANGED <<T, aborted>>
 TReset == Consume /\ Ev.ev = "reset" /\ W!Done /\ LoadTree(T)
 TEnd   == Consume /\ Ev.ev = "end" /\ W!Done /\ UNCHANGED <<kidsOf, root, stack, started, count, pruned, nils, order, T, aborted>>
 
